@@ -7,6 +7,7 @@ package main
 import (
 	"encoding/json"
 	"fmt"
+	"html/template"
 	"sort"
 	"strings"
 	"time"
@@ -45,6 +46,17 @@ var c13Corpus = []c13Case{
 	{Env: []string{"e0"}, Tmpl: []string{`<% let q = [0, 0, "none"] %><% for (v) in xs { q[0] = q[0] + 1 } %><% q[2] = s %><%= q[0] %>,<%= q[2] %>`}},
 	{Env: []string{"e0"}, Tmpl: []string{`<% let g = {a: 0, b: "-"} %><% g["a"] = g["a"] + n %><% setv(g, "b", "x") %><%= g["a"] %>,<%= g["b"] %>`}},
 	{Env: []string{"e0"}, Tmpl: []string{`<%= for (v) in xs { %><% let q = [[0, 1], [2]] %><% let r = q[0] %><% r[1] = r[1] + v %><%= q[0][1] %>;<% } %>`}},
+	// Go helpers that work in the options map they are handed: left out, a literal, a variable of the template
+	{Env: []string{"e0"}, Tmpl: []string{`<%= btn("Save") %>`}},
+	{Env: []string{"e0"}, Tmpl: []string{`<%= field(s) %>|<%= optn() %>|<%= tagb("p") %>|<%= tagb("div") { %><%= optn() %><% } %>`}},
+	{Env: []string{"e0", "e3"}, Tmpl: []string{`<%= btn("Delete", {class: "danger"}) %>|<%= btn(s) %>`, `<p><%= btn("OK") %><%= field("q", {label: s}) %><%= field(sz) %></p>`, `<% let o = {class: "k"} %><%= btn("a", o) %><%= btn("b", o) %><%= o["class"] %><%= optn(o) %><%= optn() %>`},
+		Hist: [][2]int{{0, 0}, {1, 1}, {2, 0}, {1, 0}, {0, 1}, {2, 1}, {1, 1}}},
+	// an execution of a template that is started while an execution of the same template is under way
+	{Env: []string{"e0"}, Tmpl: []string{`<%= lvl %>(<%= again(0) %>)<%= lvl %>`}},
+	{Env: []string{"e0"}, Tmpl: []string{`<%= lvl %>(<%= if (lvl > 0) { %><%= partial("self", {lvl: lvl - 1}) %><% } %>)<%= lvl %>`}},
+	{Env: []string{"e0"}, Tmpl: []string{`<%= partial("p_rec", {x: 2}) %>`}},
+	{Env: []string{"e0", "e2"}, Tmpl: []string{`<% let w = s + "!" %><li><%= w %><%= again(1) %></li><!-- <%= w %> <%= n %> -->`, `<%= for (v) in xs { %><%= v %>[<%= again(0) %>]<%= v %>,<% } %>`},
+		Hist: [][2]int{{0, 0}, {1, 1}, {0, 1}, {1, 0}, {0, 0}}},
 }
 
 type c13Checker struct {
@@ -52,21 +64,125 @@ type c13Checker struct {
 	r   int // repetitions of the re-Exec route
 }
 
-func c13Render(t *plush.Template, env string) Obs {
-	return safeCall(5*time.Second, func() (string, error) { return t.Exec(c13NewCtx(env)) })
+// A route to an execution: how a context is turned into an outcome (Exec of one template value, a fresh parse,
+// Render through the cache, ...).
+type c13Exec func(ctx *plush.Context) (string, error)
+
+const (
+	c13TopLvl        = 2  // lvl of an execution started by the oracle; one less on every nested level
+	c13ReentryBudget = 12 // nested executions per top-level execution (a loop around again() stays cheap)
+)
+
+// c13EnvStep is the data set k places after env (same theme).
+func c13EnvStep(env string, k int) string {
+	base, theme := c13SplitEnv(env)
+	i := 0
+	for j, n := range c13EnvNames {
+		if n == base {
+			i = j
+		}
+	}
+	n := len(c13EnvNames)
+	base = c13EnvNames[((i+k)%n+n)%n]
+	if theme != "" {
+		return base + c13ThemeSep + theme
+	}
+	return base
 }
 
+// c13CtxFor builds the root context of one execution of src on a route. On top of the data of env it binds the
+// names through which a template can start another execution of ITSELF while it is running:
+//   - lvl: 2 at the top, one less on every nested level;
+//   - again(k): executes the same template text, on the same route, with the data set k places further and
+//     lvl-1, and returns what that execution printed (at level 0, or when the budget is used up: a dot);
+//   - the partial name "self": the feeder serves the template's own text (when the budget is used up: a dot).
+//
+// Rendering the same text with equal data gives the same outcome on every route (C13), so again(k) returns the
+// same value on every route and the contexts of two routes are equal data. What differs between the routes is
+// whether the nested execution runs on the very template value (program, clone, cache entry) that is being
+// executed - which the outcome must not depend on.
+func c13CtxFor(env, src string, lvl int, budget *int, exec c13Exec) *plush.Context {
+	d := c13EnvShared(env)
+	for k, v := range c13EnvLocal(env, 0) {
+		d[k] = v
+	}
+	d["lvl"] = lvl
+	feeder, _ := d["partialFeeder"].(func(string) (string, error))
+	d["partialFeeder"] = func(n string) (string, error) {
+		if n != "self" {
+			return feeder(n)
+		}
+		if *budget <= 0 {
+			return "·", nil
+		}
+		*budget--
+		return src, nil
+	}
+	d["again"] = func(k int) (template.HTML, error) {
+		if lvl <= 0 || *budget <= 0 {
+			return "·", nil
+		}
+		*budget--
+		s, err := exec(c13CtxFor(c13EnvStep(env, k), src, lvl-1, budget, exec))
+		if err != nil {
+			return "", err
+		}
+		return template.HTML(s), nil
+	}
+	return plush.NewContextWith(d)
+}
+
+// c13Via runs one top-level execution of src on data env through exec.
+func c13Via(src, env string, exec c13Exec) Obs {
+	budget := c13ReentryBudget
+	return safeCall(5*time.Second, func() (string, error) { return exec(c13CtxFor(env, src, c13TopLvl, &budget, exec)) })
+}
+
+// c13Render executes the template value t; executions nested in it execute t again.
+func c13Render(t *plush.Template, env string) Obs {
+	if t == nil {
+		return safeCall(5*time.Second, func() (string, error) { return t.Exec(c13NewCtx(env)) })
+	}
+	return c13Via(t.Input, env, func(ctx *plush.Context) (string, error) { return t.Exec(ctx) })
+}
+
+// c13RenderAlt executes a; nested executions alternate between b and a (a clone and its original).
+func c13RenderAlt(a, b *plush.Template, env string) Obs {
+	depth := 0
+	var exec c13Exec
+	exec = func(ctx *plush.Context) (string, error) {
+		t := a
+		if depth%2 == 1 {
+			t = b
+		}
+		depth++
+		defer func() { depth-- }()
+		return t.Exec(ctx)
+	}
+	return c13Via(a.Input, env, exec)
+}
+
+// c13ViaRender goes through plush.Render (with the cache on: the template value the cache serves), also for the
+// nested executions.
+func c13ViaRender(src, env string) Obs {
+	return c13Via(src, env, func(ctx *plush.Context) (string, error) { return plush.Render(src, ctx) })
+}
+
+// c13Fresh parses the text and executes it; every nested execution parses the text again. The template value
+// returned is the one of the top-level execution.
 func c13Fresh(src, env string) (Obs, *plush.Template) {
-	var t *plush.Template
-	o := safeCall(5*time.Second, func() (string, error) {
-		var err error
-		t, err = plush.NewTemplate(src)
+	var top *plush.Template
+	o := c13Via(src, env, func(ctx *plush.Context) (string, error) {
+		t, err := plush.NewTemplate(src)
+		if top == nil {
+			top = t
+		}
 		if err != nil {
 			return "", fmt.Errorf("PARSE: %w", err)
 		}
-		return t.Exec(c13NewCtx(env))
+		return t.Exec(ctx)
 	})
-	return o, t
+	return o, top
 }
 
 // c13Varies reports whether n fresh parse+exec runs of one (template, data) give more than one outcome.
@@ -88,7 +204,7 @@ func c13Varies(src, env string, n int) (bool, []string) {
 }
 
 // classify labels a nondeterministic (template, data): decided by running it, named by what the program contains.
-func (c *c13Checker) nondetSite(src string, outs []string) (site string, skip bool) {
+func (c *c13Checker) nondetSite(src, env string, outs []string) (site string, skip bool) {
 	t, err := plush.NewTemplate(src)
 	var f c13Feat
 	if err == nil {
@@ -99,6 +215,17 @@ func (c *c13Checker) nondetSite(src string, outs []string) (site string, skip bo
 		return "hash-literal-duplicate-key-winner", false
 	case f.hashEffects:
 		return "hash-literal-eval-order", false
+	}
+	// Not a matter of the order inside a hash literal. Does the outcome change with EVERY execution (something
+	// is carried over from one execution to the next), or does it vary among a few outcomes?
+	seen := map[string]bool{}
+	const probes = 6
+	for i := 0; i < probes; i++ {
+		o, _ := c13Fresh(src, env)
+		seen[c13Canon(o)] = true
+	}
+	if len(seen) == probes {
+		return "outcome-changes-with-every-execution", false
 	}
 	return "nondeterministic-unclassified", false
 }
@@ -173,7 +300,11 @@ func (c *c13Checker) pair(src, env string) (string, bool) {
 			c1 = t0
 		}
 		for i := 0; i < max(2, c.r/4); i++ {
-			add("clone", c13Render(c1, env))
+			if i%2 == 0 {
+				add("clone", c13RenderAlt(c1, t0, env))
+			} else {
+				add("clone", c13Render(c1, env))
+			}
 			mutated("clone", d0, dumpProgram(c1.VerifProgram()))
 			mutated("clone-original", d0, dumpProgram(t0.VerifProgram()))
 			if i%2 == 1 {
@@ -184,11 +315,9 @@ func (c *c13Checker) pair(src, env string) (string, bool) {
 		// cache: cold, then warm
 		plush.CacheEnabled = true
 		plush.VerifCacheReset()
-		o := safeCall(5*time.Second, func() (string, error) { return plush.Render(src, c13NewCtx(env)) })
-		add("cache-cold", o)
+		add("cache-cold", c13ViaRender(src, env))
 		for i := 0; i < max(2, c.r/4); i++ {
-			o := safeCall(5*time.Second, func() (string, error) { return plush.Render(src, c13NewCtx(env)) })
-			add("cache-warm", o)
+			add("cache-warm", c13ViaRender(src, env))
 		}
 		if tc, err := plush.Parse(src); err != nil || tc == nil {
 			c.fail(cs, "wrong-error", "cache-parse-fails", fmt.Sprintf("Parse of a cached, valid template failed: %v", err))
@@ -256,7 +385,7 @@ func (c *c13Checker) pair(src, env string) (string, bool) {
 		if varies {
 			outs = fouts
 		}
-		site, _ := c.nondetSite(src, outs)
+		site, _ := c.nondetSite(src, env, outs)
 		if !varies {
 			// 64 fresh parse + exec runs agree with each other: the pair is deterministic, and it is the repetition on
 			// one route (the same parsed program executed again) that changes the outcome
@@ -306,7 +435,7 @@ func (c *c13Checker) history(cs c13Case, ref map[[2]int]string) {
 	bad := func(site string, step int, h [2]int, got string) {
 		one := c13Case{Env: []string{cs.Env[h[1]]}, Tmpl: []string{cs.Tmpl[h[0]]}}
 		if v, outs := c13Varies(one.Tmpl[0], one.Env[0], 64); v {
-			if s, skip := c.nondetSite(one.Tmpl[0], outs); !skip {
+			if s, skip := c.nondetSite(one.Tmpl[0], one.Env[0], outs); !skip {
 				c.fail(one, "wrong-output", s, "equal template and data gave different outcomes: "+c13Short(outs[0])+" vs "+c13Short(outs[1]))
 			}
 			return
@@ -364,21 +493,22 @@ func (c *c13Checker) history(cs c13Case, ref map[[2]int]string) {
 			switch {
 			case pass == 1 && step%3 == 1:
 				// Parse + Exec (what BuffaloRenderer does): the template value the cache serves
-				o = safeCall(5*time.Second, func() (string, error) {
+				o = c13Via(src, env, func(ctx *plush.Context) (string, error) {
 					t, err := plush.Parse(src)
 					if err != nil {
 						return "", err
 					}
-					return t.Exec(c13NewCtx(env))
+					return t.Exec(ctx)
 				})
 			case pass == 1 && step%3 == 2 && held != nil:
 				// a template value parsed before the cache was switched on, and its clone, executed while it is on
 				if step%2 == 0 {
-					held = held.Clone()
+					o = c13RenderAlt(held.Clone(), held, env)
+				} else {
+					o = c13Render(held, env)
 				}
-				o = c13Render(held, env)
 			default:
-				o = safeCall(5*time.Second, func() (string, error) { return plush.Render(src, c13NewCtx(env)) })
+				o = c13ViaRender(src, env)
 			}
 			if got := c13Canon(o); got != ref[h] {
 				bad(site, step, h, got)
@@ -435,7 +565,7 @@ func (c *c13Checker) run(cs c13Case) {
 func init() {
 	oracles["C13"] = func(cfg Config) []*Report {
 		rep := NewReport("C13", "C13", cfg)
-		rep.Rule = "structured programs over text, output, let, assignment, if/else-if/else, for over slices/array literals/iterators/Go maps/hash literals, user functions, hash literals (1-8 entries; ~20% with a duplicate key, values tick()/fail()), arrays, index, field/method access, block helpers, partials (also nested and with layout), contentFor/contentOf, index assignment, break/continue; each (template, data) is run via fresh Parse, r re-Execs of one template, Clone, cache cold, cache warm; groups of 2-3 templates x 2 data sets additionally in an interleaved history with the cache off / cold / warm (warm: Render, Parse + Exec of the cached template, and Exec of a template value / clone parsed before the cache was switched on, in turn); the second data set of a history is other plain data (1/2), the same plain data in a second theme - a partial feeder that serves other texts under the same partial names and helpers wrap/up bound to other functions - (1/4), or both (1/4); about 7% of the statements build a list or hash from literal constants (1-4 elements, also nested, 1/5 with one evaluated element), update it in place 1-3 times (element assignment, accumulation in a loop, a Go helper setv that stores into its argument, an index one past the end) and read it back. These programs all parse; about 65% render without error, the rest fail at run time (unknown identifiers, index out of range, failing helpers, missing partials/blocks); in addition (first, on its own random stream) texts that do NOT parse: a generated program damaged in one place (a structural token dropped or doubled, truncation, dangling operator, a broken tag inserted before any tag or appended; damaged texts that still parse are discarded and damaged again), alone and in histories together with programs that parse; such a text is run via fresh parse, Render, repeated Exec / Parse / Clone of the template value handed back next to the error, a lazily parsed Template value and its clone, cache cold and warm, and must report the error of the fresh parse every time; non-trivial = contains a tag; distinct by case text"
+		rep.Rule = "structured programs over text, output, let, assignment, if/else-if/else, for over slices/array literals/iterators/Go maps/hash literals, user functions, hash literals (1-8 entries; ~20% with a duplicate key, values tick()/fail()), arrays, index, field/method access, block helpers, partials (also nested and with layout), contentFor/contentOf, index assignment, break/continue; each (template, data) is run via fresh Parse, r re-Execs of one template, Clone, cache cold, cache warm; groups of 2-3 templates x 2 data sets additionally in an interleaved history with the cache off / cold / warm (warm: Render, Parse + Exec of the cached template, and Exec of a template value / clone parsed before the cache was switched on, in turn); the second data set of a history is other plain data (1/2), the same plain data in a second theme - a partial feeder that serves other texts under the same partial names and helpers wrap/up bound to other functions - (1/4), or both (1/4); about 7% of the statements build a list or hash from literal constants (1-4 elements, also nested, 1/5 with one evaluated element), update it in place 1-3 times (element assignment, accumulation in a loop, a Go helper setv that stores into its argument, an index one past the end) and read it back; about 5% of the statements call Go helpers that take a trailing options map and work IN the map they are handed (btn appends its class, field fills in defaults and deletes a consumed key, tagb keeps a counter and renders its block, optn marks the map) - with the map left out (the evaluator supplies it; also map and helper context both left out), given as a literal, or given as a variable of the template, 1-3 calls in a row; about 2% of the statements start another execution of the template that is running and then read their own scope: again(k) (a context-bound helper that executes the same text on the same route - the same template value on the re-Exec/lazy routes, clone and original in turn on the clone route, Render through the cache on the cache routes, a new parse on the fresh route - with the data set k places further and lvl-1; lvl is 2 at the top) as an output, in a let, inside a block helper, inside a loop, or partial(self, {lvl: lvl - 1}) (the feeder serves the template's own text), at most 12 nested executions per top-level execution; 10% of the partial calls include p_rec, a partial that includes itself x <= 3 times (with the cache on that is one cached template value executed again while it is executing). These programs all parse; about 65% render without error, the rest fail at run time (unknown identifiers, index out of range, failing helpers, missing partials/blocks); in addition (first, on its own random stream) texts that do NOT parse: a generated program damaged in one place (a structural token dropped or doubled, truncation, dangling operator, a broken tag inserted before any tag or appended; damaged texts that still parse are discarded and damaged again), alone and in histories together with programs that parse; such a text is run via fresh parse, Render, repeated Exec / Parse / Clone of the template value handed back next to the error, a lazily parsed Template value and its clone, cache cold and warm, and must report the error of the fresh parse every time; non-trivial = contains a tag; distinct by case text"
 		defer func() {
 			plush.CacheEnabled = false
 			plush.VerifCacheReset()
@@ -458,7 +588,7 @@ func init() {
 		gen := c13NewGen(rng.Fork(1), c13GenOpt{Wide: true})
 		groups := cfg.N(750, 2000)
 		start := time.Now()
-		budget := time.Duration(cfg.N(24, 280)) * time.Second
+		budget := time.Duration(cfg.N(24, 272)) * time.Second
 		for i := 0; i < groups && !rep.Full(); i++ {
 			if time.Since(start) > budget {
 				rep.Notes = append(rep.Notes, fmt.Sprintf("stopped after %d of %d groups: time budget", i, groups))
@@ -504,6 +634,8 @@ func init() {
 		rep.Notes = append(rep.Notes,
 			"outputs are compared after sorting adjacent iteration blocks of a for over a Go map (the licensed variation); the bodies of such loops are generated without side effects and, apart from printing key and value, independent of the element, so that every visiting order must give the same multiset of blocks or the same error",
 			"machine addresses (0x…) inside error messages are masked before comparison",
+			"again(k) is bound per route to 'execute this text again on this route'; since C13 demands the same outcome of one (text, data) on every route, the contexts of two routes are equal data, and a difference between routes means that the outer execution depends on whether the nested one ran on the same template value / program / cache entry",
+			"the options-map helpers keep nothing between calls; a call that leaves the options out, or writes them as a literal, must therefore print the same on every execution (only a map held in a variable of the template carries what an earlier call stored, within that execution)",
 			"the AST is inspected only to name the family of a nondeterministic program (duplicate key / several non-literal hash values); pass or fail is decided by running the real code")
 		return []*Report{rep}
 	}
